@@ -8,7 +8,7 @@ HERE=$(cd "$(dirname "$0")" && pwd)
 H=$1; shift
 D=$(mktemp -d /tmp/libhtp-replay-XXXXXX)
 trap 'rm -rf "$D"' EXIT
-FLAGS="-g -O1 -fsanitize=address,undefined -fno-omit-frame-pointer -DHAVE_CONFIG_H -I$REPO -I$REPO/htp -I$HERE -D_GNU_SOURCE -std=gnu99 -w"
+FLAGS="$EXTRA -g -O1 -fsanitize=address,undefined -fno-omit-frame-pointer -DHAVE_CONFIG_H -I$REPO -I$REPO/htp -I$HERE -D_GNU_SOURCE -std=gnu99 -w"
 INC=""
 [ -n "$FI" ] && INC="-include $HERE/fi/vf.h"
 cd "$D"
